@@ -209,6 +209,22 @@ thread_local! {
     static PANIC_INFO: RefCell<Option<String>> = RefCell::new(None);
 }
 
+/// idempotent variant for fuzz targets
+pub fn install_quiet_panic_hook_once() {
+    static ONCE: std::sync::Once = std::sync::Once::new();
+    ONCE.call_once(install_quiet_panic_hook);
+}
+
+/// is this signature listed as a known (unfixed) finding? (file loaded once)
+pub fn known_signature(id: &str, sig: &str) -> bool {
+    static K: std::sync::OnceLock<Vec<KnownFinding>> = std::sync::OnceLock::new();
+    let k = K.get_or_init(|| {
+        let root = std::env::var("VERIF_ROOT").unwrap_or_else(|_| "/verif".into());
+        load_known(&format!("{root}/known_findings.json"))
+    });
+    is_known(k, id, sig)
+}
+
 pub fn install_quiet_panic_hook() {
     std::panic::set_hook(Box::new(|info| {
         let loc = info
